@@ -17,6 +17,20 @@ import (
 // payload realises a Write token of the CallHist alphabet.
 func payload(tok string, seed int64, idx int, g W2Cfg) []byte {
 	s := seed*131 + int64(idx)
+	if g.Matcher == 1 && tok == "W5Mrz" {
+		// same reason: the extremely compressible tail is a long period of random bytes
+		p := g.DictCap / 2
+		if p > 50000 {
+			p = 50000
+		}
+		r := rand.New(rand.NewSource(s))
+		b := make([]byte, 70000+5<<20)
+		r.Read(b[:70000+p])
+		for i := 70000 + p; i < len(b); i++ {
+			b[i] = b[i-p]
+		}
+		return b
+	}
 	if g.Matcher == 1 && (tok == "W2M" || tok == "W2Mt") {
 		// The BinaryTree matcher degenerates to a linked list on long runs of
 		// equal 4-byte words (quadratic time; not a property under test), so
@@ -52,6 +66,12 @@ func payload(tok string, seed int64, idx int, g W2Cfg) []byte {
 	case "W140Kn":
 		// two alphabets eight apart: whatever band the raw/compressed decision is sensitive to
 		return append(MakeData("nearrandom", 70000, s), MakeData("nearrandom", 70000, s+4)...)
+	case "W4Mr":
+		return MakeData("random", 4<<20, s)
+	case "W5Mrz":
+		// incompressible head and a long, extremely compressible tail handed over in ONE call: the
+		// chunk that follows the compressed-size limit starts with look-ahead already buffered
+		return append(MakeData("random", 70000, s), make([]byte, 5<<20)...)
 	case "W80Krr":
 		return MakeData("randomrepeats", 80000, s)
 	case "W300Kr":
